@@ -130,7 +130,7 @@ def scn(sym, cov, calls, cancel=None, stop_cancel=None, eager=False, T=1, J=1):
                 if kind == "raise" or kind == "nostart-raise":
                     excs[k] = E(k)
                     raise excs[k]
-                if kind in ("block", "nostart-block"):
+                if kind in ("block", "nostart-block", "xcleanup"):
                     await anyio.sleep_forever()
                 if kind == "started":
                     task_status.started(sv[k])
@@ -138,6 +138,10 @@ def scn(sym, cov, calls, cancel=None, stop_cancel=None, eager=False, T=1, J=1):
                 tasklog[k] = "returned"
                 return v[k]
             except asyncio.CancelledError:
+                if kind == "xcleanup":
+                    tasklog[k] = "raised"
+                    excs[k] = E(k)
+                    raise excs[k]  # a failing cleanup: the task replaces its cancellation by an ordinary error
                 tasklog[k] = "cancelled"
                 raise
             except E:
@@ -214,7 +218,7 @@ def scn(sym, cov, calls, cancel=None, stop_cancel=None, eager=False, T=1, J=1):
                     # nothing scripted is left: release calls that block forever so that the context can be left
                     for k in range(n):
                         f = info.get(k, {}).get("future")
-                        if f is not None and not f.done() and calls[k][1] in ("block", "nostart-block"):
+                        if f is not None and not f.done() and calls[k][1] in ("block", "nostart-block", "xcleanup"):
                             foreign[0] = True
                             try:
                                 info[k]["late_cancel"] = f.cancel()
@@ -242,6 +246,7 @@ def scn(sym, cov, calls, cancel=None, stop_cancel=None, eager=False, T=1, J=1):
         print("DEBUG tasklog", tasklog, "ran", ran, "snapshot", state.get("snapshot"), "info", {k: {kk: (vv if not hasattr(vv, "done") else ("F", vv.done(), vv.cancelled())) for kk, vv in i.items()} for k, i in info.items()}, "errors", loop.errors)
     chk(not viol, viol[0][0] if viol else "", viol[:3])
     chk(state["after_exit"] == 0, "task-step-after-portal-exit")
+    chk("group" not in state, "portal-task-group-crashed", repr(state.get("group")))
     blockers_left = False
     for k in range(n):
         i = info.get(k)
@@ -309,6 +314,8 @@ def units(tier):
     add("soon coro + call sync", [("soon", "coro"), ("call", "sync")])
     add("soon raise + soon coro cancel0", [("soon", "raise"), ("soon", "coro")], cancel=0)
     add("soon block + soon coro cancel0", [("soon", "block"), ("soon", "coro")], cancel=0)
+    add("soon xcleanup + soon coro cancel0", [("soon", "xcleanup"), ("soon", "coro")], cancel=0)
+    add("soon xcleanup + soon block stop(cancel)", [("soon", "xcleanup"), ("soon", "block")], stop_cancel=True)
     add("soon block + call coro stop(cancel)", [("soon", "block"), ("call", "coro")], stop_cancel=True)
     add("soon coro + soon coro stop(no cancel)", [("soon", "coro"), ("soon", "coro")], stop_cancel=False)
     add("start started", [("start", "started")])
